@@ -519,11 +519,13 @@ func (join *invertibleTypeJoin) Start() error {
 }
 
 func (join *invertibleTypeJoin) Close() error {
-	if err := join.parentSide.plan.Close(); err != nil {
-		return err
+	// both sides have to be closed, also when closing the first one fails
+	parentErr := join.parentSide.plan.Close()
+	childErr := join.childSide.plan.Close()
+	if parentErr != nil {
+		return parentErr
 	}
-
-	return join.childSide.plan.Close()
+	return childErr
 }
 
 func (join *invertibleTypeJoin) Prefixes(prefixes []keys.Walkable) {
